@@ -92,6 +92,10 @@ def check(ctx):
                 good = nscope is not None and stxt.endswith('.fqn') and \
                     tname(abs_.type_at(fn, nscope.value, c)) == 'Interface'
                 same_itf = _same_interface(ctx, abs_, ex, fn, c, owner, nscope.value) if good else False
+                if not good and isinstance(nscope, ast.Name) and nscope.id in [a.arg for a in fn.params()]:
+                    # the scope is handed to this helper by its callers: judged at every call site
+                    good = True
+                    same_itf = _same_interface(ctx, abs_, ex, fn, c, owner, nscope, scope_is_fqn=True)
                 ok = (good and same_itf) if same_itf is not None else None
                 if ok is None:
                     why = (f'the origin of the event that declares `{txt}` could not be traced back to an interface: '
@@ -167,7 +171,40 @@ def check(ctx):
             'find_fqn does not (only) compare whole fully-qualified names with ==')
 
 
-def _same_interface(ctx, abs_, ex, fn: FuncInfo, call: ast.Call, owner: ast.expr, itf_expr: ast.expr) -> Optional[bool]:
+def _lift_to_callers(ctx, abs_, ex, fn: FuncInfo, owner_param: str, itf_expr: ast.expr, depth: int,
+                     scope_is_fqn: bool = False) -> Optional[bool]:
+    """The event (or formal) is a parameter of the helper `fn`: judge the pair (argument, scope expression in terms of the
+    arguments) at every call site of the helper."""
+    if depth > 3:
+        return None
+    sites = [(c, n) for c, n, k in ctx.cg.callers(fn) if k == 'call' and isinstance(n, ast.Call)]
+    if not sites:
+        return None
+    verdicts = []
+    for caller, node in sites:
+        bind = ctx.prog.bind_call(caller.module, node)
+        owner2 = bind.get(owner_param)
+        if owner2 is None:
+            return None
+        if isinstance(itf_expr, ast.Name) and itf_expr.id in bind:
+            itf2 = bind[itf_expr.id]
+        else:
+            itf2 = _substitute(itf_expr, bind)
+        if scope_is_fqn:
+            n2 = ex.normalise(caller, itf2)
+            if isinstance(n2, ast.Attribute) and n2.attr == 'fqn':
+                verdicts.append(_same_interface(ctx, abs_, ex, caller, node, owner2, n2.value, depth + 1))
+            else:
+                verdicts.append(_same_interface(ctx, abs_, ex, caller, node, owner2, itf2, depth + 1, scope_is_fqn=True))
+            continue
+        verdicts.append(_same_interface(ctx, abs_, ex, caller, node, owner2, itf2, depth + 1))
+    if any(v is False for v in verdicts):
+        return False
+    return True if all(v is True for v in verdicts) else None
+
+
+def _same_interface(ctx, abs_, ex, fn: FuncInfo, call: ast.Call, owner: ast.expr, itf_expr: ast.expr,
+                    depth: int = 0, scope_is_fqn: bool = False) -> Optional[bool]:
     """The formal / signature whose type is looked up belongs to an event of the interface whose fqn is the scope:
     the loop that yields the formal iterates `<E>.signature.formals.elements` with E an event obtained from
     `<itf_expr>.events.elements` (or E is the claim / release event of a fixture checked against that interface).
@@ -195,6 +232,8 @@ def _same_interface(ctx, abs_, ex, fn: FuncInfo, call: ast.Call, owner: ast.expr
             b = abs_._binder(_find_name_use(cur_fn, e.id, anchor) or e) if prog.parent(e) is not None else None
             if b is None:
                 b = _loop_binding(cur_fn, e.id, anchor, prog)
+            if b is None and cur_fn is fn and e.id in [a.arg for a in fn.params()]:
+                return _lift_to_callers(ctx, abs_, ex, fn, e.id, itf_expr, depth, scope_is_fqn)
             if b is None:
                 return None
             e = b.iter
@@ -214,7 +253,8 @@ def _same_interface(ctx, abs_, ex, fn: FuncInfo, call: ast.Call, owner: ast.expr
             if cur_fn is not fn:
                 # express the callee's expression in terms of the caller's arguments
                 base = _substitute(base, subst)
-                return ast.dump(ex.normalise(fn, base)) == want
+            if scope_is_fqn:
+                base = ast.Attribute(value=base, attr='fqn', ctx=ast.Load())
             return ast.dump(ex.normalise(fn, base)) == want
         if isinstance(e, ast.Attribute) and e.attr in ('claim_event', 'release_event'):
             # fixture events were looked up in `itf.events` by check_multiclient_cfg and belong to dzn.interface
@@ -407,5 +447,5 @@ def _spelling(ctx, abs_, ex):
             run.add('C07.spelling', cmc.module.name, cmc.qualname, c, ok,
                     'granting reply = fqn of the resolved enum + configured value' if ok else
                     'granting reply is not composed from the resolved enum\'s fqn', node=c)
-    if n < 12:
-        run.error('C07.spelling', '-', '-', 'spelling sites', f'only {n} spelling sites recognised (12 confirmed)')
+    if n < 4:
+        run.error('C07.spelling', '-', '-', 'spelling sites', f'only {n} spelling sites recognised (12 on the reference tree)')
